@@ -385,6 +385,24 @@ def add_cons_vars_to_problem(
        Keyword arguments passed to solver's add() method.
 
     """
+    # The solver interface queues additions and only notices a name that is
+    # already taken when it processes the queue. The queue is then stuck and
+    # every later update of the problem fails again, so refuse such names here.
+    taken = {"variable": set(), "constraint": set()}
+    for item in what if isinstance(what, (list, tuple)) else [what]:
+        if isinstance(item, optlang.interface.Variable):
+            kind, existing = "variable", model.variables
+        elif isinstance(item, optlang.interface.Constraint):
+            kind, existing = "constraint", model.constraints
+        else:
+            continue
+        if item.name in existing or item.name in taken[kind]:
+            raise ValueError(
+                f"Cannot add the {kind} '{item.name}': the problem already has a "
+                f"{kind} with that name."
+            )
+        taken[kind].add(item.name)
+
     model.solver.add(what, **kwargs)
 
     context = get_context(model)
